@@ -345,3 +345,66 @@ for _lo, _up in ((Arr('n'), Arr('n')), (Real(), Real()), (Arr('n'), None), (None
              if isinstance(_lo, Real) else
              [('upper bound scaled without subtracting ref0', ('var_upper = (var_upper - ref0) / scale', 'var_upper = var_upper / scale'), 'post', F + '::LinesearchSolver._setup_solvers')]
              if isinstance(_lo, Arr) and isinstance(_up, Arr) else [])
+
+
+# ---------------------------------------------------------------------------------------------
+# NewtonSolver._single_iteration: the composition the line-search contracts above rely on.  The linear system is solved
+# for the right-hand side  -residuals  (set from the CURRENT residual vector), the iterate is not touched before the line
+# search (or the plain update u += du) sees the step the linear solve delivered, and local fd ownership is restored
+# whatever happens.
+NW = 'openmdao/solvers/nonlinear/newton.py'
+
+
+def _nw_order(tag):
+    def g(it, env, res):
+        it.ctx.ghost['order'] = list(it.ctx.ghost.get('order', [])) + [tag]
+    return g
+
+
+def _nw_lin_ghost(it, env, res):
+    it.ctx.ghost['order'] = list(it.ctx.ghost.get('order', [])) + ['linear_solve']
+    sysobj = env['system']
+    from pyvc import npmodel as npm
+    for key, vec in (('rhs_at_solve', '_dresiduals'), ('u_at_solve', '_outputs')):
+        a = sysobj.attrs[vec].attrs['_data']
+        it.ctx.ghost[key] = npm.new_arr(it.ctx, (a.n,), it.frozen_getter(a), 'real', 'snap')      # a snapshot copy
+
+
+def nw_spec(has_ls):
+    sysobj = Obj('System', under_complex_step=False, _owns_approx_jac=OneOf(True, False), _outputs=Vec('n'), _doutputs=Vec('n'),
+                 _residuals=Vec('n'), _dresiduals=Vec('n'))
+    return Obj('NewtonSolver', _system=Callable(sysobj), _solver_info=OpaqueT('solver_info'), _iter_count=Int(0, None),
+               options=DictT({'solve_subsystems': False, 'max_sub_solves': Int(0, None)}),
+               linear_solver=OpaqueT('linear_solver'),
+               linesearch=(Obj('BoundsEnforceLS', _do_subsolve=OneOf(True, False)) if has_ls else None))
+
+
+SYS = 'self._system()'
+for _ls in (False, True):
+    ens = ["%s._owns_approx_jac == old(%s._owns_approx_jac)" % (SYS, SYS),
+           # right-hand side of the Newton system: minus the residuals as they were on entry
+           "all(ghost('rhs_at_solve')[i] == -old(%s._residuals._data[i]) for i in range(n))" % SYS,
+           # nothing moved the iterate before the linear solve
+           "all(ghost('u_at_solve')[i] == old(%s._outputs._data[i]) for i in range(n))" % SYS]
+    if _ls:
+        ens += ["ghost('order') == ['linearize_system', 'linearize_solver', 'linear_solve', 'linesearch']", 'self.linesearch._do_subsolve == False']
+    else:
+        ens += ["ghost('order') == ['linearize_system', 'linearize_solver', 'linear_solve']",
+                # plain Newton update with the step the linear solve left in the linear output vector
+                'all(%s._outputs._data[i] == old(%s._outputs._data[i]) + %s._doutputs._data[i] for i in range(n))' % (SYS, SYS, SYS)]
+    contract(NW + '::NewtonSolver._single_iteration', ['C10', 'C09'], dict(self=nw_spec(_ls)),
+             ensures=ens, exc_ensures=["%s._owns_approx_jac == old(%s._owns_approx_jac)" % (SYS, SYS)], may_raise=['AnalysisError'],
+             modifies=[SYS + '._owns_approx_jac', SYS + '._dresiduals._data', SYS + '._doutputs._data', SYS + '._outputs._data', SYS + '._residuals._data',
+                       'self.linesearch._do_subsolve'],
+             ghost_init={'order': [], 'rhs_at_solve': None, 'u_at_solve': None}, inline=VEC_INLINE | {'set_vec', 'set_val'},
+             assumed={'self._solver_info.append_subsolver': Assumed(), 'self._solver_info.pop': Assumed(),
+                      'self.linear_solver._linearize_children': Assumed(returns=Bool()),
+                      'system._linearize': Assumed(ghost=_nw_order('linearize_system'), may_raise=['AnalysisError'], note='builds the jacobian (does not touch the nonlinear vectors)'),
+                      'self._linearize': Assumed(ghost=_nw_order('linearize_solver')),
+                      'self.linear_solver.solve': Assumed(modifies=['system._doutputs._data'], ghost=_nw_lin_ghost, note='solves J du = dresiduals; writes the linear outputs only'),
+                      'self.linesearch.solve': Assumed(modifies=['system._outputs._data', 'system._doutputs._data', 'system._residuals._data'], ghost=_nw_order('linesearch'),
+                                                       note='BoundsEnforceLS._solve / ArmijoGoldsteinLS._solve: the contracts above')},
+             name=NW + '::NewtonSolver._single_iteration[%s]' % ('with line search' if _ls else 'no line search'),
+             canaries=[('right-hand side not negated', ('system._dresiduals *= -1.0', 'system._dresiduals *= 1.0'), 'post')] if not _ls else
+                      [('line search called before the linear solve', ("            self.linear_solver.solve('fwd')\n\n            if self.linesearch and not system.under_complex_step:\n                self.linesearch._do_subsolve = do_subsolve\n                self.linesearch.solve()",
+                                                                        "            if self.linesearch and not system.under_complex_step:\n                self.linesearch._do_subsolve = do_subsolve\n                self.linesearch.solve()\n            self.linear_solver.solve('fwd')\n            if False:\n                pass"), 'post')])
